@@ -21,11 +21,15 @@ TRUSTED = ["hand-written model lean/Mpir/Model/Rootrem.lean: mpn_rootrem_basecas
 ASSUMPTIONS = ["rootrem_basecase_spec is stated for operands below 2^32 bits (`bitLen U <= 2^32`): the test `un - pn == xn` of "
                "rootrem_basecase.c:163 recognises a quotient with xn+1 limbs only while nth^2 is small against B^xn; for "
                "astronomically large nth (operands of more than 2^32 bits) the model leaves this case open",
-               "mpn_rootrem_internal: one Newton round is proved (mpn_rootrem_newton_round_partial on the exact expression, "
-               "mpn_rootrem_internal_round on the model step: invariant preserved, no ASSERT_ALWAYS); the induction over the schedule "
-               "list, the bound ni <= 64 on its length, the approx exit and the dispatcher's padded call are differential "
-               "(ops mpn_rootrem_i / mpn_rootrem_i_norem against the model, model == iroot asserted on every op); RootremSpec stays a "
-               "hypothesis of the mpz-level theorems",
+               "mpn_rootrem_internal / mpn_rootrem are proved in full on the model for operands of at most 2^62 resp. 2^61 bits "
+               "(mpn_rootrem_schedule_ok: sizes[] ends in 0, ni <= 64, chain condition; mpn_rootrem_internal_spec, "
+               "mpn_rootrem_internal_approx_spec, mpn_rootrem_spec); beyond 2^63 bits and k = 2 the schedule has 66 entries and "
+               "ASSERT_ALWAYS (ni < GMP_NUMB_BITS + 1) would fire (no address space holds such an operand).  RootremSpec is "
+               "discharged pointwise (rootrem_contract) for every operand an mpz_t can hold: mpz_root_spec, perfect_power_p_sound, "
+               "perfect_power_p_iff carry only the size hypothesis bitLen |u| <= 2^61 (|SIZ| < 2^31 limbs gives 2^37)",
+               "the mpz layer calls the value-level model Mpir.Root.rootrem (Model/Root.lean); Lemmas/RootremBridge.lean proves it equal to "
+               "the Option-valued mirror Mpir.Rootrem.rootrem wherever that answers `some` (internal part) and re-proves its basecase "
+               "with the same invariants; both models answer ops of the differential run (mpn_rootrem / mpn_rootrem_i)",
                "op mpn_rootrem_basecase calls __gmpn_rootrem_basecase directly at every size (the library uses it below ROOTREM_THRESHOLD limbs)"]
 
 def _iroot(n, u):
@@ -213,7 +217,7 @@ def perfpow_ops(rng, tier):
     only; power-of-two multiplicities), cofactor 1."""
     quick = tier == "quick"
     big = [1009, 1013, 1019, 1021, 10007, 65537, (1 << 31) - 1, (1 << 61) - 1]
-    for _ in range(250 if quick else 3000):
+    for _ in range(90 if quick else 3000):
         m = rng.choice([2, 3, 5, 7, 11, 13, 17, 19, 23, 4, 6, 9, 15, 25, 49])
         t = 1
         for _ in range(rng.randrange(1, 3)): t *= rng.choice(big) ** rng.randrange(1, 3)
@@ -224,7 +228,7 @@ def perfpow_ops(rng, tier):
         for w in (v, v << n2, (v << n2) * sm, v * sm, (v + 2) << n2, v * rng.choice(big), 1 << n2, sm << n2):
             if w > 1:
                 yield "mpz_perfect_power_p %s" % hx(w); yield "mpz_perfect_power_p %s" % hx(-w)
-    for m in range(2, 40):
+    for m in range(2, 24 if quick else 40):
         for q in (1009, 1013):
             yield "mpz_perfect_power_p %s" % hx(q ** m); yield "mpz_perfect_power_p %s" % hx(-(q ** m))
             yield "mpz_perfect_power_p %s" % hx(q ** m * 1021)
